@@ -40,6 +40,7 @@ func initArrayList() {
 	RegisterNativeClass("Std::ArrayList", "value.ArrayListClass")
 
 	ArrayListIteratorClass = NewClass()
+	ArrayListIteratorClass.IncludeMixin(ResettableIteratorBaseMixin)
 	ArrayListClass.AddConstantString("Iterator", Ref(ArrayListIteratorClass))
 	RegisterNativeClass("Std::ArrayList::Iterator", "value.ArrayListIteratorClass")
 }
